@@ -10,6 +10,7 @@
 EXTENDS FLine, TLC, Json
 
 CONSTANTS Atoms, MaxLen, Cfgs, Junk, EmitOn,
+          Extra,     \* bytes added to the free tail of every head (0 = quick, 1 = thorough)
           Sel        \* "rpl" | "req" | "tok" | "bad": which heads / atoms (cfg: Atoms <- AtomsSel)
 VARIABLES wire, vis, cont, obj, verdict, cfg, prev, hist
 
@@ -42,7 +43,7 @@ Tail4 == {aSP, aCR, aLF, aA}
 
 \* ---- status lines
 HeadsRpl == {
-  H(<<S(<<aSIP, aSP>>), S(<<a200, aSP, aA>>)>>, 5),             \* "SIP/2.0 " "200 a"  + " a\r\n1", "\r\n1", "\r1a" ...
+  H(<<S(<<aSIP, aSP>>), S(<<a200, aSP, aA>>)>>, 4),             \* "SIP/2.0 " "200 a"  + " a\r\n1", "\r\n1", "\r1a" ...
   H(<<S(<<asip, aSP, a200>>), aSP>>, 4),                        \* "sip/2.0 200" " "   + "\r\n1" (empty reason) ...
   H(<<aSIP, aSP, a200, aSP>>, 3),                               \* the same in small atoms
   H(<<S(<<aSIP, aSP>>), S(<<a200, aSP, aA>>), S(<<aA, aHT, aA, aSP>>)>>, 3) }   \* longer reason with HT/SP
@@ -51,7 +52,7 @@ AtomsRpl == Tail6 \cup PiecesOf(HeadsRpl)
 \* ---- request lines: a ladder of heads, each explored with all short tails
 HeadsReq == {
   H(<<S(<<aINVITE, aSP, aA>>), S(<<a1, aA, aSP, aSIP>>)>>, 3),          \* "INVITE a" "1a SIP/2.0" + "\r\n1" ...
-  H(<<S(<<aACK, aSP, aA, a1>>), S(<<aA, a1, aA, a1, aSP, aA>>)>>, 5),   \* 13 bytes, in the version: + "a\r\n1", "a\r\n\r\n"
+  H(<<S(<<aACK, aSP, aA, a1>>), S(<<aA, a1, aA, a1, aSP, aA>>)>>, 4),   \* 13 bytes, in the version: + "a\r\n1", "a\r\n\r\n"
   H(<<aACK, aSP, aA, aSP, aA, a1, aA, a1, aA, a1, aA, a1>>, 3),         \* small atoms: "ACK a a1a1a1a1" + "\r\n1"
   H(<<S(<<aACK, aSP, aA, aSP, aA, aCR>>), S(<<aLF, aA, a1, aA, a1, aA>>)>>, 2),    \* short line, long enough buffer
   H(<<S(<<aACK, aSP, aA, aSP, aA, aLF>>), S(<<aCR, aA, a1, aA, a1, aA>>)>>, 2),
@@ -63,7 +64,7 @@ aMMM == S(<<aINVITE, aACK>>)        \* "INVITEACK"
 aAAAA == S(<<aA, aA, aA, aA>>)
 HeadsTok == {
   H(<<aMMM, aAAAA>>, 3),                                        \* "INVITEACK" "aaaa" + "a a", " a ", HT, CR ...
-  H(<<aMMM, aAAAA, S(<<aA, aSP, aA>>)>>, 5),                    \* ... "a a"  (method resumed, in the URI) + " a\r\n1"
+  H(<<aMMM, aAAAA, S(<<aA, aSP, aA>>)>>, 4),                    \* ... "a a"  (method resumed, in the URI) + " a\r\n1"
   H(<<aMMM, aAAAA, S(<<aA, aSP, aA>>), S(<<aSP, aA>>)>>, 3),    \* ... " a"   (in the version) + "\r\n1"
   H(<<S(<<aACK, aSP>>), S(<<aA, a1, aA, a1, aA, a1, aA, a1, aA>>)>>, 3),            \* 13 bytes, in the URI
   H(<<S(<<aACK, aSP>>), S(<<aA, a1, aA, a1, aA, a1, aA, a1, aA>>), S(<<a1, aSP, aA>>)>>, 3) }
@@ -102,7 +103,7 @@ CfgsFL0  == {[kind |-> "fline", start |-> 0, flags |-> 0, hcap |-> -1, ccap |-> 
 \* ---- the steering constraint
 Body == SubSeq(wire, cfg.start + 1, Len(wire))
 Compat(h, b) == IF Len(b) <= Len(h) THEN SubSeq(h, 1, Len(b)) = b ELSE SubSeq(b, 1, Len(h)) = h   \* one is a prefix of the other
-InHeads(b) == \E h \in Heads : Compat(h.p, b) /\ Len(b) <= Len(h.p) + h.t
+InHeads(b) == \E h \in Heads : Compat(h.p, b) /\ Len(b) <= Len(h.p) + h.t + Extra
 HeadOK  == InHeads(Body)        \* the CONSTRAINT of the cfg files
 \* (TLC in -coverage mode cannot evaluate an operator that is both a CONSTRAINT and used in an invariant)
 Steered == InHeads(Body)
@@ -117,18 +118,37 @@ OffsSaneC      == Steered => OffsSane
 \* TLC's -coverage cannot attribute costs to operators reached through the INSTANCE substitution
 \* P_Call <- FLine_Call; this probe makes every arm of FLine.tla that the exploration reaches visible to it
 \* (and checks that the state of the object is a function of wire and cut points).
-RECURSIVE RunHist(_, _, _, _)
-RunHist(k, offs, st, e) ==
-  IF k > Len(hist) THEN [st |-> st, offs |-> offs, err |-> e]
-  ELSE LET r == FLine_Call(SubSeq(wire, 1, hist[k]), offs, st, cfg) IN RunHist(k + 1, r.offs, r.st, r.err)
+\* (r is forced by the IF at the level of its LET: -coverage loses track of a call that is first evaluated
+\* as a lazy argument inside the nested application of a recursive operator.)
+RECURSIVE RunHist(_, _, _)
+RunHist(k, offs, st) ==
+  LET r == FLine_Call(SubSeq(wire, 1, hist[k]), offs, st, cfg) IN
+    IF r.err # "more" \/ k >= Len(hist) THEN r ELSE RunHist(k + 1, r.offs, r.st)
 CovProbe == (vis > 0 /\ Steered) =>
-              LET r == RunHist(1, cfg.start, FLine_New(cfg), "more") IN
+              LET r == RunHist(1, cfg.start, FLine_New(cfg)) IN
                 r.st = obj /\ r.offs = cont /\ r.err = verdict
 
 \* ---- oracle record
 Emit == (EmitOn /\ vis > 0 /\ Steered) =>
           PrintT(ToJson([k |-> "fline", cfg |-> cfg, wire |-> wire, cuts |-> hist,
                          offs |-> cont, err |-> verdict, obs |-> FLine_Obs(obj), int |-> obj]))
+
+\* ---- resumption on the real code.  hist is not part of the VIEW and ResumeEqFresh holds on the model with
+\* equal internal state, so the first-found (BFS) representative of every distinct state is the ONE-CALL
+\* schedule: the records of Emit alone never make the replayer resume a suspended object.  These two
+\* invariants add, per state, the model's result for (a) the two-call schedule <<prev, vis>> (all but the last
+\* atom, then everything) and (b) the bytewise schedule (a call after every single byte).
+RECURSIVE RunSched(_, _, _, _, _)
+RunSched(w, cuts, k, offs, st) ==
+  LET r == FLine_Call(SubSeq(w, 1, cuts[k]), offs, st, cfg) IN
+    IF r.err # "more" \/ k >= Len(cuts) THEN r ELSE RunSched(w, cuts, k + 1, r.offs, r.st)
+EmitSched(cuts) ==
+  LET r == RunSched(wire, cuts, 1, cfg.start, FLine_New(cfg)) IN
+    PrintT(ToJson([k |-> "fline", cfg |-> cfg, wire |-> SubSeq(wire, 1, vis), cuts |-> cuts,
+                   offs |-> r.offs, err |-> r.err, obs |-> FLine_Obs(r.st), int |-> r.st]))
+EmitTwo  == (EmitOn /\ Steered /\ vis = Len(wire) /\ prev > cfg.start /\ prev < vis) => EmitSched(<<prev, vis>>)
+EmitByte == (EmitOn /\ Steered /\ vis > cfg.start + 1) =>
+              EmitSched(SubSeq([j \in 1..(vis - cfg.start) |-> cfg.start + j], 1, vis - cfg.start))
 
 \* ---- C08 on every state of the exploration (success => exact decomposition)
 CurRes == [err |-> verdict, offs |-> cont, obs |-> FLine_Obs(obj)]
